@@ -167,8 +167,27 @@ pub fn run(ctx: &mut Ctx) {
             if preserved(&before, &tree_of(&s), 1).is_some() && !salts_of(&base).contains(&Some(given.len())) || !lens.contains(&Some(given.len())) {
                 ctx.violation("add_salt_instance", "add_salt_instance did not add exactly the given salt", replay());
             }
+            // the SAME salt attached again is the same assertion: nothing more is added, and the result is what
+            // adding the assertion 'salt': <that salt> by hand gives
+            let again = s.add_salt_instance(given.clone());
+            let by_hand = base.add_assertion(known_values::SALT, given.clone());
+            if env_bytes(&again) != env_bytes(&s) || env_bytes(&by_hand) != env_bytes(&s) {
+                ctx.violation("add_salt_instance/same-salt-twice", "attaching the same salt value a second time changed the envelope (or differs from adding the assertion by hand)", replay());
+            }
+            check_spec(ctx, &again, "same salt instance twice");
             let mut g1 = bc_rand::make_fake_random_number_generator();
             let mut g2 = bc_rand::make_fake_random_number_generator();
+            {
+                // the same through two generators in the same state, one applied after the other
+                let mut ga = bc_rand::make_fake_random_number_generator();
+                let mut gb = bc_rand::make_fake_random_number_generator();
+                let once = base.add_salt_with_len_using(16, &mut ga).unwrap();
+                let twice = once.add_salt_with_len_using(16, &mut gb).unwrap();
+                if salts_of(&twice).len() != salts_of(&once).len() {
+                    ctx.violation("add_salt_using/same-salt-twice", "two saltings driven by generators in the same state added two identical salt assertions", replay());
+                }
+                check_spec(ctx, &twice, "same generator state twice");
+            }
             let u1 = base.add_salt_using(&mut g1);
             let u2 = base.add_salt_using(&mut g2);
             if env_bytes(&u1) != env_bytes(&u2) {
